@@ -180,6 +180,14 @@ def get_comment(
             # We don't add this space to the generated file.
             lines = [line[1:] if line and line[0] == " " else line for line in lines]
 
+            # The text ends up inside a triple-quoted string literal: keep backslashes
+            # literal and do not let quotes of the comment close the docstring.
+            lines = [
+                line.replace("\\", "\\\\").replace('"""', '\\"\\"\\"') for line in lines
+            ]
+            if lines and lines[-1].endswith('"'):
+                lines[-1] = lines[-1][:-1] + '\\"'
+
             # This is a field, message, enum, service, or method
             if len(lines) == 1 and len(lines[0]) < 79 - indent - 6:
                 return f'{pad}"""{lines[0]}"""'
